@@ -1,5 +1,6 @@
-// C01: bottom-up incidence queries == brute-force scan of the top-down definitions, after K operations on a base mesh.
-// shard params: 0 = base, 1 = deletion mode (bit0 deferred, bit1 fast), 2 = op kind, 3 = chunk of the op's argument space.
+// C01: bottom-up incidence queries == brute-force scan of the top-down definitions, after K <= 2 operations on a base mesh.
+// shard params: 0 base, 1 deletion mode (bit0 deferred, bit1 fast), 2 op1, 3 chunk of the selected op's argument space,
+// 4 op2 (OP_NONE for K=1), 5 fixed argument index of the other op, 6 which op the symbolic selector ranges over (0: op1, 1: op2).
 #include "ops.h"
 #include "oracle_bu.h"
 
@@ -8,18 +9,23 @@
 #endif
 
 static __attribute__((noinline)) void do_case(unsigned i) {
-  unsigned base = v_param(0), mode = v_param(1), op = v_param(2), chunk = v_param(3);
+  unsigned base = v_param(0), mode = v_param(1), op1 = v_param(2), chunk = v_param(3), op2 = v_param(4), fixed = v_param(5), which = v_param(6);
   TopologyKernel m;
   set_mode(m, mode);
   build_base(m, base);
-  unsigned idx = chunk * CASES_PER_QUERY + i;
-  if (idx >= op_arity_count(m, op)) return;
-  unsigned a, b; op_decode(m, op, idx, a, b);
-  if (!op_valid(m, op, a, b)) return;
-  apply_op(m, op, a, b);
-#ifdef SECOND_OP
-  // K = 2: a second operation of kind v_param(4..) chosen by a second symbolic selector is not dispatched here
-#endif
+  unsigned sel_idx = chunk * CASES_PER_QUERY + i;
+  unsigned idx1 = which == 0 ? sel_idx : fixed, idx2 = which == 0 ? fixed : sel_idx;
+  unsigned a, b;
+  if (idx1 >= op_arity_count(m, op1)) { v_witness("C01 case outside the op's argument space"); return; }
+  op_decode(m, op1, idx1, a, b);
+  if (!op_valid(m, op1, a, b)) { v_witness("C01 case with invalid argument"); return; }
+  apply_op(m, op1, a, b);
+  if (op2 != OP_NONE) {
+    if (idx2 >= op_arity_count(m, op2)) { v_witness("C01 case outside the op's argument space"); return; }
+    op_decode(m, op2, idx2, a, b);
+    if (!op_valid(m, op2, a, b)) { v_witness("C01 case with invalid argument"); return; }
+    apply_op(m, op2, a, b);
+  }
   check_bottom_up(m, ORACLE_LEVEL);
   v_witness("C01 case end");
 }
